@@ -441,6 +441,53 @@ func (c *c12Runner) runRaceAbort(i, j int) {
 		c.fail("spec", "spec-bad-proof-error-kind", fmt.Sprintf("raceabort: bad-proof chunk %d: %v", j, errB))
 		return
 	}
+	if i%2 == 0 {
+		// Variant: the restore is RESTARTED for the same checkpoint (a freshly decoded copy of the good
+		// metadata, as a syncing node gets it from another peer) while A is still importing. What A
+		// imported belongs to the aborted multipart insert and was discarded with it: A must not be
+		// credited to the new restore. Afterwards every chunk, including i, is restored; the result
+		// must be complete and readable.
+		c.res.Count("raceabort:restart-same-root")
+		if err := ndb.AbortMultipartInsert(); err != nil {
+			panic(err)
+		}
+		if err := ndb.StartMultipartInsert(s.root.Version); err != nil {
+			panic(err)
+		}
+		var meta2 checkpoint.Metadata
+		if err := cbor.Unmarshal(cbor.Marshal(cd.meta), &meta2); err != nil {
+			panic(err)
+		}
+		if err := rs.StartRestore(ctx, &meta2); err != nil {
+			close(g.gate)
+			<-ch
+			c.fail("spec", "restorer-restart-refused", fmt.Sprintf("StartRestore after the abort: %v", err))
+			return
+		}
+		close(g.gate)
+		a := <-ch
+		if a.err == nil {
+			c.fail("spec", "restorer-straggler-credited-to-new-restore",
+				fmt.Sprintf("RestoreChunk(%d) started under a restore that was aborted (proof failure of chunk %d) and restarted for the same root returned done=%v, err=nil: its nodes were discarded with the aborted multipart insert, yet the chunk counts as restored in the new restore", i, j, a.done))
+			return
+		}
+		for k := range cd.chunks {
+			if _, err := rs.RestoreChunk(ctx, uint64(k), bytes.NewReader(cd.chunks[k])); err != nil {
+				c.fail("spec", "restorer-straggler-credited-to-new-restore",
+					fmt.Sprintf("after abort + restart for the same root, RestoreChunk(%d) of the new restore answered %v (straggler was chunk %d)", k, err, i))
+				return
+			}
+		}
+		if err := ndb.Finalize([]node.Root{s.root}); err != nil {
+			c.fail("spec", "spec-restored-root-not-finalizable", fmt.Sprintf("Finalize after abort + restart: %v", err))
+			return
+		}
+		got, err := readAll(ndb, s.root)
+		if err != nil || len(got) != len(s.keys) {
+			c.fail("spec", "spec-restored-not-readable", fmt.Sprintf("after abort + restart the restored root reads %d of %d keys, err=%v", len(got), len(s.keys), err))
+		}
+		return
+	}
 	close(g.gate)
 	a := <-ch
 	if a.done {
